@@ -113,7 +113,9 @@ impl Monitor for C12 {
                 json!({"kind": "concat", "tables": format!("{} {}", t.spec.text(), u.text()), "stmt": stmt.text(Paren::Full), "lines": lines, "cuts": cutpoints, "joined": joined})
             }
             _ => {
-                let before = random_file(rng, tier, true, 4);
+                // the invalid line's index ranges over 0..=70 (loops that treat every n-th line differently are reached);
+                // half of the cases use plain filler lines so that the index is uniform
+                let before = if rng.chance(1, 2) { random_file(rng, tier, true, 4) } else { vec![json!({"rep": "filler\n", "n": rng.below(71) as u64})] };
                 let after_n = 1 + rng.below(4);
                 let after: Vec<J> = (0..after_n).flat_map(|i| vec![json!(format!("after{}", i)), json!("\n")]).collect();
                 let bad = *rng.pick(&["ff", "c3", "c328", "e282", "f09f98", "80", "fe", "edA080"]);
@@ -122,6 +124,12 @@ impl Monitor for C12 {
                 file.push(json!({"hex": bad}));
                 if rng.chance(1, 2) { file.push(json!("post")); }
                 file.push(json!("\n"));
+                if rng.chance(1, 3) {
+                    // a second invalid line further on
+                    file.push(json!({"rep": "filler\n", "n": rng.below(25) as u64}));
+                    file.push(json!({"hex": *rng.pick(&["ff", "c328", "80"])}));
+                    file.push(json!("\n"));
+                }
                 file.extend(after.clone());
                 json!({"kind": "badutf8", "file": file, "where": *rng.pick(&["main", "main", "joined"]), "after": after_n, "before": before})
             }
